@@ -208,7 +208,8 @@ pub type FaultReq = (Kind, u16);
 
 fn kind() -> impl Strategy<Value = Kind> {
     prop_oneof![
-        5 => Just(Kind::Trace),
+        3 => Just(Kind::Trace),
+        4 => Just(Kind::TraceEnd),
         3 => Just(Kind::Finalize),
         3 => Just(Kind::Drop),
         1 => Just(Kind::Action),
